@@ -24,7 +24,8 @@ def expected(notes, time_div, sub, opt):
         if k < kmin:
             kmin = k
     # min_time = first onset (remove_silence) else 0 (onsets are >= 0 here)
-    shift = kmin if remove_silence else 0  # in frames; the sub-frame part cancels / rounds away
+    # min_time: first onset when silence is removed, the smallest onset when it is negative, else 0
+    shift = kmin if (remove_silence or kmin < 0) else 0  # in frames; the sub-frame part cancels / rounds away
     lo = hi = notes[0][0]
     for n in notes[1:]:
         if n[0] < lo:
@@ -84,7 +85,7 @@ def make(n_notes, time_div, sub_num, opt, dmax=3):
         for i in range(n_notes):
             p, k, d, v = kw["p%d" % i], kw["k%d" % i], kw["d%d" % i], kw["v%d" % i]
             require((21 if piano_range else 0) <= p <= (108 if piano_range else 127))
-            require((1 if sub < 0 else 0) <= k <= 40)
+            require(-6 <= k <= 40)
             require((0 if i == 0 else dmax - 1) <= d <= dmax)
             require(1 <= v <= 127)
             d = sym.realize(d)  # durations become array lengths: enumerated
@@ -113,6 +114,8 @@ def make(n_notes, time_div, sub_num, opt, dmax=3):
                 o = k + (d if d >= 1 else 1)
                 last_abs = o if last_abs is None or o > last_abs else last_abs
             end_time = (last_abs + end_extra) / time_div
+            if sub != 0:
+                require(kmin >= 1)  # keeps the sub-frame offset from moving min_time across a frame border
         res = must_not_raise(M._make_pianoroll, arr, onset_only=onset_only, pitch_margin=pmargin,
                              time_margin=tmargin, time_div=time_div, note_separation=note_sep, return_idxs=True,
                              piano_range=piano_range, remove_silence=remove_silence, end_time=end_time,
@@ -182,6 +185,13 @@ def make_dense(time_div):
         s = fold.sum(0)
         s[s == 0] = 1
         check(np.allclose(pcn, fold / s), "normalised pitch-class roll")
+        # a repeated pitch across an entirely silent frame must come back as separate notes
+        rep = np.zeros((128, 7), dtype=int)
+        rep[p0, 0:2] = v0
+        rep[p0, 3:5] = v0
+        rep[p0, 6:7] = v0
+        rb = must_not_raise(M.pianoroll_to_notearray, rep, time_div, "sec", _what="pianoroll_to_notearray(repeated)")
+        check(len(rb) == 3, "repeated notes separated by silent frames are merged", len(rb))
         # inverse on non-touching notes
         back = must_not_raise(M.pianoroll_to_notearray, dense, time_div, "sec", _what="pianoroll_to_notearray")
         exp = sorted([(k0, p0, d0, v0), (k1, p1, d1, v1)])
@@ -230,14 +240,15 @@ HARNESSES = [
       models=["symnp:partitura.utils.music!", "symsparse", "symdict_music"], budget={"quick": 150, "thorough": 900},
       functions=["music._make_pianoroll"],
       bounds="2 (thorough: 3) notes in any order: pitch 0..127 (21..108 in piano range), velocity 1..127 and onset "
-             "frame 0..40 symbolic, duration 0..3 frames enumerated (first note 0..dmax, others dmax-1..dmax; dmax=2 in quick), concrete sub-frame offset in {-1/4,0,1/4}; "
+             "frame -6..40 symbolic, duration 0..3 frames enumerated (first note 0..dmax, others dmax-1..dmax; dmax=2 in quick), concrete sub-frame offset in {-1/4,0,1/4}; "
              "time_div in {1,2,4}; option tuples from the catalogue (onset_only, note_separation, pitch_margin, "
              "time_margin, piano_range, remove_silence, binary, with/without velocity column, end_time)",
       outside="negative onsets, min_time argument, more notes, exact half-frame ties of the rounding"),
     H("dense", make_dense, lambda tier: [{"time_div": 4}, {"time_div": 8}], budget={"quick": 20, "thorough": 60}, core=False,
       vectors=[{"p0": 60, "k0": 0, "d0": 2, "v0": 64, "p1": 72, "k1": 1, "d1": 1, "v1": 10},
                {"p0": 21, "k0": 5, "d0": 4, "v0": 127, "p1": 108, "k1": 0, "d1": 3, "v1": 1},
-               {"p0": 61, "k0": 3, "d0": 1, "v0": 2, "p1": 49, "k1": 3, "d1": 2, "v1": 99}],
+               {"p0": 61, "k0": 3, "d0": 1, "v0": 2, "p1": 49, "k1": 3, "d1": 2, "v1": 99},
+               {"p0": 60, "k0": 0, "d0": 1, "v0": 64, "p1": 72, "k1": 9, "d1": 1, "v1": 64}],
       functions=["music.compute_pianoroll", "music.compute_pitch_class_pianoroll", "music.pianoroll_to_notearray"],
       bounds="dense numeric kernels (toarray, fold, run-length decoding): concrete vectors on the real numpy/scipy only"),
 ]
